@@ -63,12 +63,37 @@ float32=_mk("float32",32,True,True); float64=_mk("float64",64,True,True)
 def _ai(x):
     """int-like value without forcing realisation of symbolic ints"""
     return x.v if isinstance(x, NPScalar) else x
+def _is_plain_int(x):
+    try:
+        from crosshair.tracers import NoTracing, is_tracing
+    except Exception:
+        return type(x) is int
+    if not is_tracing():
+        return type(x) is int
+    with NoTracing():
+        return type(x) is int
+
+
 class Sparse:
-    """flat storage that does not allocate: unwritten cells read as 0 (so a symbolic shape costs nothing)"""
-    def __init__(self): self.d={}
-    def __getitem__(self, i): return self.d.get(i, 0)
-    def __setitem__(self, i, v): self.d[i]=v
-    def snapshot(self): return dict(self.d)
+    """flat storage that does not allocate: unwritten cells read as 0 (so a symbolic shape costs nothing).
+    Concrete offsets live in a dict; symbolic offsets in an association list compared with == (hashing a symbolic int
+    would force CrossHair to enumerate its values)."""
+    def __init__(self): self.d={}; self.sym=[]
+    def __getitem__(self, i):
+        if _is_plain_int(i) and not self.sym: return self.d.get(i, 0)
+        for k,v in reversed(self.sym):
+            if k == i: return v
+        if _is_plain_int(i): return self.d.get(i, 0)
+        for k,v in self.d.items():
+            if k == i: return v
+        return 0
+    def __setitem__(self, i, v):
+        if _is_plain_int(i) and not self.sym: self.d[i]=v
+        else: self.sym.append((i, v))
+    def snapshot(self):
+        out=dict(self.d)
+        for n,(k,v) in enumerate(self.sym): out[("sym", n)]=(k, v)
+        return out
 
 class SArr:
     """array, row-major, sparse storage of python values (ints possibly symbolic)."""
@@ -322,9 +347,18 @@ class SharedMemory:
         SHM_EVENTS.append(("unlink", self.name, id(self)))
 
 
-def _frombuffer3(buf, dtype):
+def _frombuffer3(buf, dtype=float64, count=-1, offset=0):
     if isinstance(buf, (bytes, bytearray)):
         return SArr((len(buf),), dtype, list(buf))
+    if count != -1 or offset != 0:
+        if isinstance(buf, _Buf):
+            buf = _BufSlice(buf.shm, 0, buf.shm.size)
+        item = dtype.bits // 8
+        start = buf.start + _ai(offset)
+        stop = buf.stop if count == -1 else start + _ai(count) * item
+        if stop > buf.stop:
+            raise ValueError("buffer is smaller than requested size")
+        buf = _BufSlice(buf.shm, start, stop)
     if isinstance(buf, _Buf):
         buf = _BufSlice(buf.shm, 0, buf.shm.size)
     if isinstance(buf, _BufSlice):
@@ -333,11 +367,16 @@ def _frombuffer3(buf, dtype):
         SHM_EVENTS.append(("view", buf.shm.name, buf.start, buf.stop, dtype.__name__, id(buf.shm)))
         if nbytes % item:
             raise ValueError("buffer size must be a multiple of element size")
-        key = (buf.start, buf.stop, dtype.__name__)
-        reg = buf.shm.store["regions"]
-        if key not in reg:
-            reg[key] = Sparse()
-        return SArr((nbytes // item,), dtype, reg[key])
+        regs = buf.shm.store.setdefault("region_list", [])
+        store = None
+        for (a, b, dn, st) in regs:
+            if dn == dtype.__name__ and a == buf.start and b == buf.stop:
+                store = st
+                break
+        if store is None:
+            store = Sparse()
+            regs.append((buf.start, buf.stop, dtype.__name__, store))
+        return SArr((nbytes // item,), dtype, store)
     raise TypeError("frombuffer shim")
 
 
@@ -356,10 +395,124 @@ class _Gc:
         return 0
 
 
+# ---- fake multiprocessing (spawn context): synchronous processes, picklability enforced, scripted queue delivery ----
+import pickle as _pickle
+MP = {"assign": None, "exitcodes": {}, "events": [], "procs": []}
+
+
+class FakeQueue:
+    def __init__(self, maxsize=0):
+        self.items = []
+        self.closed = False
+
+    def put(self, x):
+        if self.closed:
+            raise ValueError(f"Queue {self!r} is closed")
+        self.items.append(x)
+
+    def get(self):
+        if not self.items:
+            raise RuntimeError("shim: get() on an empty queue would block forever")
+        return self.items.pop(0)
+
+    def close(self):
+        self.closed = True
+
+    def __reduce__(self):
+        return (_queue_by_id, (id(self),))
+
+
+_QUEUES = {}
+
+
+def _queue_by_id(i):
+    return _QUEUES[i]
+
+
+class FakeProcess:
+    def __init__(self, target=None, args=(), kwargs=None):
+        self.target, self.args, self.kwargs = target, args, kwargs or {}
+        self.exitcode = None
+        self.started = False
+        self.killed = False
+        MP["procs"].append(self)
+
+    def start(self):
+        # the spawn start method pickles the Process arguments: enforce that contract
+        for a in self.args:
+            if isinstance(a, FakeQueue):
+                continue
+            _pickle.dumps(a)
+        _pickle.dumps(dict((k, v) for k, v in self.kwargs.items()))
+        self.started = True
+        MP["events"].append(("start", getattr(self.target, "__name__", "?")))
+        sched = MP.get("scheduler")
+        if sched is not None:
+            sched(self)
+
+    def run_now(self):
+        try:
+            self.target(*self.args, **self.kwargs)
+            self.exitcode = 0
+        except BaseException as e:  # a crashed child has a non-zero exit code
+            if type(e).__name__ in ("IgnoreAttempt", "UnexploredPath", "CrossHairInternal", "NotDeterministic", "PathTimeout"):
+                raise
+            self.exitcode = 1
+            self.error = e
+
+    def join(self, timeout=None):
+        if self.exitcode is None and not self.killed:
+            self.run_now()
+
+    def kill(self):
+        self.killed = True
+        if self.exitcode is None:
+            self.exitcode = -9
+
+
+class FakeContext:
+    def Queue(self, maxsize=0):
+        q = FakeQueue(maxsize)
+        _QUEUES[id(q)] = q
+        return q
+
+    def Process(self, target=None, args=(), kwargs=None):
+        return FakeProcess(target, args, kwargs)
+
+
+def get_context(method=None):
+    MP["events"].append(("get_context", method))
+    return FakeContext()
+
+
 def install_all():
     """numpy, numba, multiprocessing.shared_memory, time.sleep (no-op) and gc.collect (no-op)"""
     install()
     sys.modules["multiprocessing.shared_memory"] = _shm_mod
+
+
+def load_helpers(repo="/repo"):
+    """the real sketchnu/helpers.py with multiprocessing.get_context / Queue / sleep / psutil replaced"""
+    import importlib.util
+    m = _pytypes.ModuleType("sketchnu.helpers")
+    sys.modules["sketchnu.helpers"] = m
+    m.range = index_range
+    m._shim_int = shim_int
+    src = open(f"{repo}/sketchnu/helpers.py").read()
+    src = src.replace("from multiprocessing import get_context, Queue", "get_context = None; Queue = None").replace("import psutil", "psutil = None")
+    m.__file__ = f"{repo}/sketchnu/helpers.py"
+    exec(compile(src, m.__file__, "exec"), m.__dict__)
+    m.get_context = get_context
+    m.Queue = FakeQueue
+    m.sleep = _sleep
+    m.gc = _Gc
+
+    class _Ps:
+        @staticmethod
+        def cpu_count(logical=False):
+            return 2
+    m.psutil = _Ps
+    return m
 
 
 def shim_int(x=0, *a):
